@@ -19,7 +19,7 @@ CHECKS = {
         ref='5/C02'),
     'C03': dict(
         text='Same exploration as C01 with the maximal-run oracle: for every returned storm/rise each member step is proved above its threshold and both neighbours at or below it (SMT obligations over the symbolic data on every path), N<=7 quick / 9 thorough.',
-        note='R-mode reading of the two strict comparisons; function level (match_storms); the SQL view storm_total_rain_depth is covered only when the DB-level harness is present.  DB level (C01, C03, C04): states with all validity patterns of G+1 instants, plus one stretch boundary between two neighbouring instants that both carry a level (after instant 1 or 2 quick, any position thorough).',
+        note='R-mode reading of the two strict comparisons; function level (match_storms); the SQL view storm_total_rain_depth is covered only when the DB-level harness is present.  DB level (C01, C03, C04): states with all validity patterns of G+1 instants, plus one stretch boundary between two neighbouring instants that both carry a level (after instant 1 or 2 quick, any interior position thorough).',
         ref='5/C03'),
     'C04': dict(
         text='All pairs of boolean flag vectors up to length N (7 quick, 9 thorough) through the real get_mystery_jump_mask and get_true_interval_masks; the resulting unexplained-rise and interstorm flags are proved equal to a declarative expansion of the property text, and the runs equal to the maximal True runs.  DB level: classify_intervals on symsql from any Inv_load state (G=4 at 1800 s; G=3 at 2700 s and 7200 s, steps that do not divide an hour): flag rows and interstorm intervals against the same declarative definitions over symbolic rain and level.',
